@@ -212,6 +212,10 @@ func specs() []spec {
 		// exponential, simplest first
 		{name: "e00-empty", schema: 0},
 		{name: "e01-zero-only", schema: 0, zt: 0.001, zc: 3, sum: 0},
+		{name: "e01b-s0-one", schema: 0, pos: bk{1: 1}, sum: 1.5},
+		{name: "e01c-s0-one-low", schema: 0, pos: bk{0: 4}, sum: 3},
+		{name: "e01d-s-1-zt2-empty", schema: -1, zt: 2},
+		{name: "e01e-s-1-zt2-zero-only", schema: -1, zt: 2, zc: 1, sum: 1.5},
 		{name: "e02-s0-two", schema: 0, pos: bk{1: 1, 2: 2}, sum: 7.5},
 		{name: "e03-s0-grown", schema: 0, pos: bk{1: 2, 2: 3, 3: 1}, sum: 17},
 		{name: "e03b-s0-grown-more", schema: 0, pos: bk{1: 3, 2: 4, 3: 1}, sum: 22},
